@@ -84,7 +84,94 @@ def acceptable(codes, early, allow_running=False):
     return f"unexpected reply sequence {L}"
 
 
+def run_double(case, chooser):
+    """two transfer commands outstanding at once (both in one segment, one data connection at most), ABOR at event
+    position k: every one of them is stopped, the ABOR's answer is the last word, and the next transfer is its own"""
+    k = case["k"]
+    size = 3 * B
+    spy = backends.SpyControl()
+    rig = Rig(chooser=chooser, n_sessions=1, tree=tree(size), spy=spy, window=1,
+              server_kwargs={"block_size": B, "wait_future_timeout": case.get("wait", 30)}, backend=case["backend"])
+    problems = []
+    try:
+        w = rig.world
+        s = rig.sessions[0]
+        chooser.active = False
+        rig.ev(0, "@connect")
+        rig.ev(0, "USER anonymous")
+        rig.ev(0, "EPSV")
+        if case["data_conn"]:
+            rig.ev(0, "@data")
+            if case.get("noread"):
+                rig.ev(0, "@dstop")
+        state = {"sent": False}
+
+        def on_event(nev):
+            if not state["sent"] and nev == k:
+                state["sent"] = True
+                s.ctl.send(b"ABOR\r\n")
+
+        w.net.on_event = on_event
+        verb_idx = len(s.transcript)
+        chooser.active = True
+        w.net.n_events = 0
+        pair = (case["first"] + "\r\n" + case["second"] + "\r\n").encode()
+        if k == 0:
+            state["sent"] = True
+            pair += b"ABOR\r\n"
+        with Running(w.loop):
+            s.ctl.send(pair)
+        w.settle(0.5)
+        rig.collect()
+        nev_total = w.net.n_events
+        if not state["sent"]:
+            if case.get("probe"):
+                return {"problems": [], "reached": False, "events": nev_total, "trace": "", "outcome": ""}
+            state["sent"] = True
+            with Running(w.loop):
+                s.ctl.send(b"ABOR\r\n")
+            w.settle(0.5)
+            rig.collect()
+        chooser.active = False
+        codes = [c for _, r in s.transcript[verb_idx:] for c, _ in r]
+        sig = {"verb": case["first"].split(" ")[0] + "+" + case["second"].split(" ")[0], "data_conn": case["data_conn"]}
+        if s.closed():
+            problems.append({"kind": "session-closed-by-abort", "codes": codes})
+        elif codes[-1:] != ["226"]:
+            # replies come in the order of the commands and ABOR was the last one: its answer (the 226 after a 426, or
+            # 'nothing to abort') is the last reply, half a second after it was sent at the latest
+            problems.append({"kind": "abor-answer", "why": "the last reply is not the ABOR's 226", "codes": codes})
+        if codes.count("426") > sum(1 for c in codes if c[0] == "1"):
+            problems.append({"kind": "abor-answer", "why": "more 426 than started transfers", "codes": codes})
+        if not s.closed():
+            # nothing of the two aborted commands is left: the next transfer gets its own data connection and file
+            rig.ev(0, "EPSV", advance=0.25)
+            rig.ev(0, "@data", advance=0.25)
+            r = rig.ev(0, "RETR old", advance=0.5)
+            cs = [c for c, _ in (r or [])]
+            if cs != ["150", "226"] or s.data is None or bytes(s.data.received) != b"OLD":
+                problems.append({"kind": "followup-transfer", "codes": cs,
+                                 "data": None if s.data is None else bytes(s.data.received).decode("latin-1")})
+            r = rig.ev(0, "PWD", advance=0.25)
+            if [c for c, _ in (r or [])] != ["257"]:
+                problems.append({"kind": "followup-pwd", "codes": [c for c, _ in (r or [])]})
+        if spy.leaked():
+            problems.append({"kind": "file-handle-open", "paths": spy.leaked()})
+        s.peer.vanish()
+        w.settle(0.75)
+        for p in ledger.released_problems(w, rig.server, spy=spy):
+            problems.append(p)
+        for p in problems:
+            p.update(sig)
+        return {"problems": problems, "reached": True, "events": nev_total, "trace": report.fp(w.net.trace),
+                "outcome": report.fp([sig["verb"], codes])}
+    finally:
+        rig.close()
+
+
 def run_abort(case, chooser):
+    if case.get("double"):
+        return run_double(case, chooser)
     verb, size, k = case["verb"], case["size"], case["k"]
     data_conn = case.get("data_conn", True)
     spy = backends.SpyControl()
@@ -455,6 +542,16 @@ def build_items(tier):
             case = {"verb": verb, "size": size, "k": k, "backend": "memory", "followup": "reuse", "data_conn": True,
                     "spare": True}
             items.append((case, 3 if tier != "quick" else 0, kinds))
+    # two transfer commands outstanding when the ABOR is handled (pipelined; the second waits for a data connection
+    # of its own, or both do)
+    for first, second in (("RETR f", "RETR f"), ("RETR f", "LIST d"), ("LIST d", "RETR f"), ("MLSD d", "MLSD d")):
+        for backend in ("memory", "async"):
+            for data_conn, noread in ((True, False), (True, True), (False, False)):
+                base = {"double": True, "first": first, "second": second, "backend": backend, "data_conn": data_conn,
+                        "noread": noread, "verb": first.split(" ")[0], "size": 3 * B, "followup": "again"}
+                n = run_abort(dict(base, k=10 ** 9, probe=True), Chooser())["events"]
+                for k in range(0, n + 2):
+                    items.append((dict(base, k=k), 1 if tier == "quick" else 2, kinds))
     return items
 
 
@@ -599,7 +696,9 @@ def run(tier, seed, t0):
               "backends": ["memory", "slow(0.125s completion latency)", "AsyncPathIO (every operation an executor job)"],
               "abort_positions": "k=0 (same segment as the verb) and after every network event k=1..N+1 counted from "
                                  "the transfer verb, with and without a data connection",
-              "throttled": "server write / read limit of one block per second, next command (SYST, ABOR, PWD) in the ABOR's segment", "followups": FOLLOWUPS + ["reuse: next transfer over a data connection made in advance, no new PASV"], "data_peer": ["reading", "connected but not reading (RETR/LIST/MLSD)", "closes / resets its data connection right before ABOR"], "deviation_bound": 1 if tier == "quick" else 3, "send_window": "lock-step", "cases": len(items)}
+              "throttled": "server write / read limit of one block per second, next command (SYST, ABOR, PWD) in the ABOR's segment", "followups": FOLLOWUPS + ["reuse: next transfer over a data connection made in advance, no new PASV"], "data_peer": ["reading", "connected but not reading (RETR/LIST/MLSD)", "closes / resets its data connection right before ABOR"], "deviation_bound": 1 if tier == "quick" else 3, "send_window": "lock-step", "cases": len(items),
+              "two_outstanding": "RETR+RETR, RETR+LIST, LIST+RETR, MLSD+MLSD in one segment x {data connection, non-reading data peer, none} x "
+                                 "{memory, AsyncPathIO}, ABOR at every event position, wait_future_timeout 30 s"}
     return report.finish(
         PID, tier, seed, "model_checking", part, t0,
         rule="case = (verb, size, abort position, backend, follow-up); every schedule with <= bound deviations from the "
